@@ -5,7 +5,8 @@ open PcbV PcbV.DataRead
 /-
   request:  run <code-hex> <table> <ops>
     table = comma-separated  line:offset  pairs (program.line_numbers), "-" if empty
-    ops   = ';'-separated:  r (RESTORE) | R<n> (RESTORE n) | d<types> (READ, one letter s/n per variable)
+    ops   = ';'-separated:  r (RESTORE) | R<n> (RESTORE n) | d<types> (READ, one letter s/n/o per variable;
+            o = numeric variable whose assignment the store refuses with Overflow)
   reply:    ok <res>;<res>;…   one per op:
     restore: "ok" | "!8@here"
     read:    values joined by ','  (s<hex> / n<hex>, "-" hex for empty), then optionally "!<err>@<erl|here>"
@@ -42,8 +43,8 @@ def runOps (code : Bytes) (tbl : List (Nat × Nat)) : Nat → List String → Op
         | .ok p => (runOps code tbl p ops).map ("ok" :: ·)
         | .error e => (runOps code tbl pos ops).map (("!" ++ toString e ++ "@here") :: ·)
     | 'd' :: ts =>
-      if ts.all (fun c => c == 's' || c == 'n') then
-        let out := readVars true code pos (ts.map (· == 's'))
+      if ts.all (fun c => c == 's' || c == 'n' || c == 'o') then
+        let out := readVarsR true code pos (ts.map (fun c => (c == 's', if c == 'o' then some Gen.E.overflow else none)))
         let vs := ",".intercalate (out.vals.map showVal)
         let es := match out.err with
           | none => ""
